@@ -346,6 +346,241 @@ def insert_shape(body, problems):
     return guards, cond, simple, over
 
 
+
+# ------------------------------------------------- programs of the other members
+class Outside(Exception):
+    """a construct outside the recognised subset"""
+
+
+def tokenize_expr(t):
+    toks = re.findall(r"std::max|rhs\.size\(\)|v\.size\(\)|size\(\)|capacity\(\)|n_old|[A-Za-z_]\w*|\d+|[()+*/,?:<>=!-]", t)
+    if "".join(toks).replace(" ", "") != t.replace(" ", ""):
+        raise Outside("expression '%s'" % t)
+    return toks
+
+
+class ExprParser:
+    def __init__(self, text):
+        self.t = tokenize_expr(text)
+        self.i = 0
+        self.text = text
+
+    def peek(self):
+        return self.t[self.i] if self.i < len(self.t) else None
+
+    def take(self, x=None):
+        tok = self.peek()
+        if tok is None or (x is not None and tok != x):
+            raise Outside("expression '%s'" % self.text)
+        self.i += 1
+        return tok
+
+    def ternary(self):
+        a = self.additive()
+        if self.peek() == ">":
+            self.take()
+            b = self.additive()
+            self.take("?")
+            t = self.ternary()
+            self.take(":")
+            e = self.ternary()
+            return "(EIfGt %s %s %s %s)" % (a, b, t, e)
+        return a
+
+    def additive(self):
+        a = self.mult()
+        while self.peek() == "+":
+            self.take()
+            a = "(EAdd %s %s)" % (a, self.mult())
+        return a
+
+    def mult(self):
+        a = self.atom()
+        while self.peek() in ("*", "/"):
+            op = self.take()
+            a = "(%s %s %s)" % ("EMul" if op == "*" else "EDiv", a, self.atom())
+        return a
+
+    def atom(self):
+        tok = self.take()
+        if tok == "(":
+            a = self.ternary()
+            self.take(")")
+            return a
+        if tok == "std::max":
+            self.take("(")
+            a = self.ternary()
+            self.take(",")
+            b = self.ternary()
+            self.take(")")
+            return "(EMax %s %s)" % (a, b)
+        simple = {"n": "EN", "n_old": "ENOld", "size()": "ESize", "capacity()": "ECap", "S": "ECapS",
+                  "rhs.size()": "ERhsSize", "v.size()": "ERhsSize"}
+        if tok in simple:
+            return simple[tok]
+        if tok.isdigit():
+            return "(EConst %s)" % tok
+        raise Outside("expression '%s'" % self.text)
+
+
+def parse_nexp(text):
+    p = ExprParser(text)
+    e = p.ternary()
+    if p.peek() is not None:
+        raise Outside("expression '%s'" % text)
+    return e
+
+
+def parse_cond(text, ctx):
+    t = text.strip()
+    fixed = {"local_storage_used()": "CLocal", "!local_storage_used()": "CHeap",
+             "std::is_trivially_default_constructible_v<T>": "CTrivial",
+             "!std::is_trivially_default_constructible_v<T>": "CNonTrivial",
+             "size_ == capacity_": "(CEq ESize ECap)"}
+    if t in fixed:
+        return fixed[t]
+    if t in ctx.get("bools", {}):
+        return ctx["bools"][t]
+    if t == ctx.get("saved"):
+        return "CSavedLocal"
+    m = re.match(r"^(.*?)\s*(<=|>=|==|<|>)\s*(.*)$", t)
+    if not m or "?" in t:
+        raise Outside("condition '%s'" % t)
+    a, op, b = parse_nexp(m.group(1)), m.group(2), parse_nexp(m.group(3))
+    return {"<=": "(CLe %s %s)" % (a, b), ">=": "(CLe %s %s)" % (b, a), "<": "(CLt %s %s)" % (a, b),
+            ">": "(CLt %s %s)" % (b, a), "==": "(CEq %s %s)" % (a, b)}[op]
+
+
+SEQ_PATTERNS = [
+    # (list of regexes over consecutive simple statements, action builder)
+    ([r"^data_ = local_storage_$", r"^size_ = (?:data_|local_storage_) \+ n$", r"^capacity_ = (?:data_|local_storage_) \+ S$"],
+     lambda m: "(ASetLocal EN)"),
+    ([r"^data_ = local_storage_$", r"^size_ = data_$", r"^capacity_ = data_ \+ S$"], lambda m: "(ASetLocal (EConst 0))"),
+    ([r"^data_ = static_cast<T \*>\(::operator new\(n \* sizeof\(T\)\)\)$", r"^capacity_ = size_ = data_ \+ n$"],
+     lambda m: "ASetHeapNew"),
+    ([r"^data_ = rhs\.data_$", r"^size_ = rhs\.size_$", r"^capacity_ = rhs\.capacity_$",
+      r"^rhs\.data_ = rhs\.local_storage_$", r"^rhs\.size_ = rhs\.local_storage_$",
+      r"^rhs\.capacity_ = rhs\.local_storage_ \+ S$"], lambda m: "AStealRhs"),
+    ([r"^data_ = new_data$", r"^capacity_ = data_ \+ n$", r"^size_ = data_ \+ n_old$"], lambda m: "AAdoptNewData"),
+]
+
+ARGX = r"(?:x|std::forward<Args>\(args\)\.\.\.)"
+SIMPLE_PATTERNS = [
+    (r"^const auto n\(static_cast<size_type>\(std::distance\(b, e\)\)\)$", lambda m: "ALetNVals"),
+    (r"^const auto n_old\(size\(\)\)$", lambda m: "ALetNOld"),
+    (r"^const auto old_size\(size\(\)\)$", lambda m: "ALetOldSize"),
+    (r"^const auto n\((.*)\)$", lambda m: "(ALetN %s)" % parse_nexp(m.group(1))),
+    (r"^n = (.*)$", lambda m: "(ALetN %s)" % parse_nexp(m.group(1))),
+    (r"^size_ = (?:begin\(\)|data_) \+ (.*)$", lambda m: "(ASetSize %s)" % parse_nexp(m.group(1))),
+    (r"^\+\+size_$", lambda m: "AIncSize"),
+    (r"^size_ \+= n$", lambda m: "AAddSizeN"),
+    (r"^rhs\.size_ = rhs\.data_$", lambda m: "ARhsSetSize0"),
+    (r"^free_heap_memory\(\)$", lambda m: "AFreeHeap"),
+    (r"^std::copy\((?:rhs|v)\.begin\(\), (?:rhs|v)\.end\(\), begin\(\)\)$", lambda m: "(AFromRhs false WAssign)"),
+    (r"^std::move\((?:rhs|v)\.begin\(\), (?:rhs|v)\.end\(\), begin\(\)\)$", lambda m: "(AFromRhs true WAssign)"),
+    (r"^vita::uninitialized_copy\((?:rhs|v)\.begin\(\), (?:rhs|v)\.end\(\), (?:begin\(\)|data_)\)$",
+     lambda m: "(AFromRhs false WConstruct)"),
+    (r"^vita::uninitialized_move\((?:rhs|v)\.begin\(\), (?:rhs|v)\.end\(\), (?:begin\(\)|data_)\)$",
+     lambda m: "(AFromRhs true WConstruct)"),
+    (r"^destroy_range\(begin\(\) \+ n, end\(\)\)$", lambda m: "ADestroyTail"),
+    (r"^std::fill\(end\(\), begin\(\) \+ n, T\(\)\)$", lambda m: "AFillTailDefault"),
+    (r"^std::fill_n\(begin\(\), n, T\(\)\)$", lambda m: "AFillNDefault"),
+    (r"^std::fill_n\(begin\(\), n, x\)$", lambda m: "AFillNArg"),
+    (r"^T tmp\(%s\)$" % ARGX, lambda m: "ATmpFromArg"),
+    (r"^new \(size_\) T\(std::move\(tmp\)\)$", lambda m: "AConstructEndTmp"),
+    (r"^\*size_ = (?:x|T\(std::forward<Args>\(args\)\.\.\.\))$", lambda m: "AAssignEndArg"),
+    (r"^new \(size_\) T\(%s\)$" % ARGX, lambda m: "AConstructEndArg"),
+    (r"^auto new_data\(static_cast<T \*>\(::operator new\(n \* sizeof\(T\)\)\)\)$", lambda m: "ANewData"),
+    (r"^vita::uninitialized_move\(begin\(\), end\(\), new_data\)$", lambda m: "AMoveToNewData"),
+    (r"^grow\(\)$", lambda m: "ACallGrow"),
+    (r"^grow\(n\)$", lambda m: "ACallGrowN"),
+    (r"^reserve\((.*)\)$", lambda m: "(ACallReserve %s)" % parse_nexp(m.group(1).replace("old_size", "size()"))),
+    (r"^std::copy\(b, e, end\(\)\)$", lambda m: "(AWriteVals WAssign)"),
+    (r"^vita::uninitialized_copy\(b, e, end\(\)\)$", lambda m: "(AWriteVals WConstruct)"),
+]
+
+FOR_PATTERNS = [
+    ("auto k(size()); k < n; ++k", "new (data_ + k) T()", "AConstructUpToN"),
+    ("size_type k(0); k < n; ++k", "new (data_ + k) T()", "AConstructAllDefault"),
+    ("size_type k(0); k < n; ++k", "new (data_ + k) T(x)", "AConstructAllArg"),
+    ("; size_ < capacity_; ++size_", "new (size_) T()", "AConstructToCap"),
+]
+
+IGNORED = [r"^return \*this$", r"^return begin\(\) \+ old_size$"]
+
+
+def prog_of(nodes, ctx):
+    """Coq term of type prog for a statement list"""
+    if not nodes:
+        return "PNil"
+    n = nodes[0]
+    if n[0] == "block":
+        return prog_of(n[1] + nodes[1:], ctx)
+    if n[0] == "s":
+        t = n[1]
+        if any(re.match(p, t) for p in IGNORED):
+            return prog_of(nodes[1:], ctx)
+        m = re.match(r"^const bool (\w+)\((.*)\)$", t)
+        if m:
+            name, c = m.group(1), m.group(2)
+            if c == "local_storage_used()":
+                ctx = dict(ctx, saved=name)
+                return "(PAct ASaveLocal %s)" % prog_of(nodes[1:], ctx)
+            # any other bool must be consumed by the very next statement
+            if len(nodes) < 2 or nodes[1][0] != "if" or nodes[1][1] != name:
+                raise Outside("bool '%s' not used at once" % name)
+            ctx2 = dict(ctx, bools=dict(ctx.get("bools", {}), **{name: parse_cond(c, ctx)}))
+            return prog_of(nodes[1:], ctx2)
+        for pats, build in SEQ_PATTERNS:
+            k = len(pats)
+            if len(nodes) >= k and all(x[0] == "s" and re.match(p, x[1]) for p, x in zip(pats, nodes[:k])):
+                return "(PAct %s %s)" % (build(None), prog_of(nodes[k:], ctx))
+        for pat, build in SIMPLE_PATTERNS:
+            m = re.match(pat, t)
+            if m:
+                return "(PAct %s %s)" % (build(m), prog_of(nodes[1:], ctx))
+        raise Outside("statement '%s'" % t)
+    if n[0] == "if":
+        c = parse_cond(n[1], ctx)
+        th = prog_of([n[2]], ctx)
+        el = prog_of([n[3]], ctx) if n[3] else "PNil"
+        return "(PIf %s %s %s %s)" % (c, th, el, prog_of(nodes[1:], ctx))
+    if n[0] == "for" and n[2][0] == "s":
+        for head, body, act in FOR_PATTERNS:
+            if n[1] == head and n[2][1] == body:
+                return "(PAct %s %s)" % (act, prog_of(nodes[1:], ctx))
+    raise Outside("%s (%s)" % (n[0], n[1] if len(n) > 1 and isinstance(n[1], str) else ""))
+
+
+# member definitions that become programs: (field order of mkProgs, key)
+PROG_METHODS = [
+    ("operator=(const small_vector &rhs)", True), ("operator=(small_vector &&rhs)", True),
+    ("small_vector(small_vector &&rhs)", False), ("push_back(const T &x)", False),
+    ("emplace_back(Args &&... args)", False), ("resize(size_type n)", False), ("grow(size_type n)", False),
+    ("grow()", False), ("reserve(size_type n)", False), ("append(IT b, IT e)", False),
+    ("small_vector(size_type n)", False), ("small_vector(size_type n, const T &x)", False)]
+
+
+def progs_text(defs, problems):
+    by_key = {"%s(%s)" % (name, params): body for name, params, body in defs}
+    items = []
+    for key, self_guard in PROG_METHODS:
+        if key not in by_key:
+            problems.append("member %s not found" % key)
+            continue
+        try:
+            nodes = drop_asserts(parse_stmts(by_key[key]))
+            if self_guard:
+                # if (this != &rhs) { ... }  return *this;
+                if not (len(nodes) == 2 and nodes[0][0] == "if" and nodes[0][1] == "this != &rhs"
+                        and nodes[0][3] is None and nodes[1] == ("s", "return *this")):
+                    raise Outside("self-assignment guard")
+                nodes = [nodes[0][2]]
+            items.append("    (* %s *)\n    %s" % (key, prog_of(nodes, {})))
+        except (Outside, ParseError) as e:
+            problems.append("%s: outside subset: %s" % (key, e))
+    return "Definition progs_gen : progs :=\n  mkProgs\n" + "\n".join(items) + ".\n"
+
 # ------------------------------------------------------------------- output
 def coq_string(t):
     return '"' + t.replace('"', '""') + '"'
@@ -365,6 +600,7 @@ def bodies_text(defs, ident):
 
 HEADER = """(* GENERATED by translate/smallvec_ops.py from src/utility/small_vector.tcc -- do not edit.
    insert_shape_gen: early exits, branch condition and range operations of insert(i, b, e);
+   progs_gen: the programs (guards, range operations, field updates) of the other mutating members;
    method_bodies: the normalised statements of every member definition. *)
 From Coq Require Import List String.
 From VV Require Import SmallVec.SmallVecAst.
@@ -402,6 +638,7 @@ def generate(snap):
         guards, cond, simple, over = insert_shape(ins[0][2], problems)
         text = HEADER + "\nDefinition insert_shape_gen : insert_shape :=\n  mkInsertShape\n    [%s]\n    %s\n    [%s]\n    [%s].\n\n" % (
             "; ".join(guards), cond, "; ".join(simple), "; ".join(over))
+        text += progs_text(defs, problems) + "\n"
         text += bodies_text(defs, "method_bodies") + "\n"
     except (ParseError, OSError, AssertionError) as e:
         problems.append("small_vector.tcc: %s" % e)
